@@ -19,7 +19,7 @@ use std::{
     cell::RefCell,
     collections::{BTreeMap, VecDeque},
     future::Future,
-    io::Read,
+    io::{Read, Write},
     os::{
         fd::{AsRawFd, OwnedFd},
         unix::net::{UnixListener as StdUnixListener, UnixStream as StdUnixStream},
@@ -522,6 +522,10 @@ enum Style {
     /// away at once (both halves dropped, unread data in its queue: the kernel resets the
     /// connection). B must still receive every message A sent before it sees the failure.
     SendThenVanish { a2b: Vec<SendOp>, junk: Vec<usize> },
+    /// The peer (a raw descriptor) sends `inbound` small messages, closes its *sending* direction
+    /// only (`shutdown(SHUT_WR)`) and keeps reading. The zlink end receives them, is told that the
+    /// stream has ended, and then sends `ops`: all of it must still reach the peer.
+    HalfClose { inbound: Vec<usize>, ops: Vec<SendOp>, split: bool },
 }
 
 #[derive(Clone, Debug)]
@@ -619,6 +623,11 @@ fn gen_plan(t: &mut Tape, thorough: bool) -> Plan {
                 };
                 Style::CancelRaw { ops: gen_ops_b(t, n_max, class, sb, &mut budget, max_len, false), plan }
             }
+            (5, How::Pair) => Style::HalfClose {
+                inbound: (0..t.draw(4)).map(|_| t.draw(600)).collect(),
+                ops: gen_ops_b(t, n_max, class, sb, &mut budget, max_len, false),
+                split: t.draw(2) == 1,
+            },
             (4, _) => Style::SendThenVanish {
                 a2b: gen_ops_b(t, n_max, class, sb, &mut budget, max_len, false),
                 junk: (0..1 + t.draw(3)).map(|_| t.draw(200)).collect(),
@@ -669,6 +678,7 @@ fn describe_plan(p: &Plan, rt: &str) -> Value {
                 Style::PingPong { rounds } => json!({"ping_pong_call_reply_pads": rounds}),
                 Style::CancelRaw { ops, plan } => json!({"abandoned_sends_vs_raw_peer": {"ops": describe_ops(ops), "cancel": format!("{plan:?}")}}),
                 Style::SendThenVanish { a2b, junk } => json!({"sender_vanishes_with_unread_data": {"a_to_b": describe_ops(a2b), "unread_b_to_a_pads": junk}}),
+                Style::HalfClose { inbound, ops, split } => json!({"peer_half_closes_and_keeps_reading": {"peer_sends_first_pads": inbound, "then_zlink_end_sends": describe_ops(ops), "halves_split_from_the_start": split}}),
             }
         })).collect::<Vec<_>>()
     })
@@ -1006,6 +1016,56 @@ fn spawn_conn<B: Backend>(world: &World, sh: &Rc<Shared<B::Sock>>, k: usize, cp:
                 });
             }
         }
+        Style::HalfClose { inbound, ops, split } => {
+            let raw = raw.unwrap();
+            let log = Rc::new(RefCell::new(Vec::new()));
+            let recs = Rc::new(RefCell::new(Vec::new()));
+            sh.cancel_results.borrow_mut().push((k, ops.clone(), recs.clone(), log.clone()));
+            let (world1, sh1, ops1, inbound1, split1) = (world.clone(), sh.clone(), ops.clone(), inbound.clone(), *split);
+            acts.push(Act {
+                class: 1,
+                tag: (k as u64) * 8 + 6,
+                kind: Some(ActKind::Fut(Box::pin(async move {
+                    let (mut ar, mut aw) = a.split();
+                    if !split1 {
+                        let c: Connection<B::Sock> = Connection::join(ar, aw);
+                        (ar, aw) = c.split();
+                    }
+                    // everything the peer said, then the news that it will say no more
+                    for (seq, len) in inbound1.iter().enumerate() {
+                        match ar.receive_call::<Msg<'_>>().await {
+                            Ok(call) => {
+                                let Msg::Msg { conn: c, dir: d, seq: s, pad: p } = call.method();
+                                let ok = *c == conn && *d == 1 && *s == seq as u32 && **p == *pad(*len, salt(conn, 1, seq as u32));
+                                world1.borrow_mut().ev("b.recv", (conn as u64) * 2 + 1, seq as u64);
+                                if !ok {
+                                    sh1.fail("C19/received-sequence-differs", format!("connection {conn}: message {seq} (pad {len}) of a peer that then half-closed arrived altered"));
+                                    return;
+                                }
+                            }
+                            Err(e) => {
+                                sh1.fail("C19/receive-error", format!("connection {conn}: receiving message {seq} of a peer that then half-closed failed: {e:?}"));
+                                return;
+                            }
+                        }
+                    }
+                    match ar.receive_call::<Msg<'_>>().await {
+                        Err(_) => world1.borrow_mut().ev("b.eof_seen", conn as u64, 0),
+                        Ok(c) => {
+                            sh1.fail("C19/received-sequence-differs", format!("connection {conn}: a message nobody sent arrived after the peer closed its sending direction: {:?}", format!("{c:?}").chars().take(80).collect::<String>()));
+                            return;
+                        }
+                    }
+                    // the peer still reads: what is sent now must arrive
+                    let fl = RefCell::new(None);
+                    run_sender(&world1, &mut aw, conn, 0, &ops1, CancelPlan::Never, &recs, &fl).await;
+                    if let Some((c, m)) = fl.into_inner() {
+                        sh1.fail(&c, format!("connection {conn} (the peer has closed its sending direction only and keeps reading): {m}"));
+                    }
+                }))),
+            });
+            acts.push(Act { class: 3, tag: (k as u64) * 8 + 7, kind: Some(ActKind::Raw(RawReader { sock: raw, log })) });
+        }
         Style::CancelRaw { ops, plan } => {
             let raw = raw.unwrap();
             let log = Rc::new(RefCell::new(Vec::new()));
@@ -1124,7 +1184,19 @@ async fn scenario<B: Backend>(world: &World, plan: &Plan) -> Result<(), (String,
             set_sndbuf(&sb, v);
         }
         let a = Connection::new(B::wrap(sa));
-        if matches!(c.style, Style::CancelRaw { .. }) {
+        if let Style::HalfClose { inbound, .. } = &c.style {
+            // the raw peer says what it has to say (little enough for any socket buffer), closes
+            // its sending direction and from then on only reads
+            for (seq, l) in inbound.iter().enumerate() {
+                let mut f = frame_bytes(k as u32, 1, seq as u32, *l);
+                f.push(0);
+                (&sb).write_all(&f).map_err(|e| ("HARNESS/panic".to_string(), format!("raw peer write: {e}")))?;
+            }
+            sb.shutdown(std::net::Shutdown::Write).map_err(|e| ("HARNESS/panic".to_string(), format!("raw peer shutdown: {e}")))?;
+            world.borrow_mut().stat("fault.peer_half_closed_and_keeps_reading");
+            sb.set_nonblocking(true).unwrap();
+            spawn_conn::<B>(world, &sh, k, c, a, None, Some(sb));
+        } else if matches!(c.style, Style::CancelRaw { .. }) {
             sb.set_nonblocking(true).unwrap();
             spawn_conn::<B>(world, &sh, k, c, a, None, Some(sb));
         } else {
@@ -1303,6 +1375,7 @@ fn run_tier_b(world: &World, smol: bool, thorough: bool) -> Verdict {
                 Style::PingPong { rounds } => rounds.iter().flat_map(|r| [r.0, r.1]).collect(),
                 Style::CancelRaw { ops, .. } => lens_of(ops),
                 Style::SendThenVanish { a2b, junk } => lens_of(a2b).into_iter().chain(junk.iter().copied()).collect(),
+                Style::HalfClose { inbound, ops, .. } => lens_of(ops).into_iter().chain(inbound.iter().copied()).collect(),
             };
             let sb = c.sndbuf.unwrap_or(212_992);
             w.stat_add("frames.submitted", lens.len() as u64);
